@@ -315,6 +315,7 @@ type probeResult struct {
 }
 
 type propMeta struct {
+	CrashIsViolation bool
 	Level        string
 	QuickRuns    int
 	ThoroughRuns int
@@ -393,11 +394,11 @@ func workers() int {
 	return n
 }
 
-func runWorker(bin string, args []string, memKB int, timeout time.Duration) (string, error) {
+func runWorker(bin string, args []string, memKB int, timeout time.Duration, extraEnv ...string) (string, error) {
 	// ulimit -v guards against unbounded allocation in the code under test
 	sh := fmt.Sprintf("ulimit -v %d; exec \"$0\" \"$@\"", memKB)
 	cmd := exec.Command("/bin/sh", append([]string{"-c", sh, bin}, args...)...)
-	cmd.Env = append(os.Environ(), "GOMAXPROCS=2", "GOTRACEBACK=single")
+	cmd.Env = append(append(os.Environ(), "GOMAXPROCS=2", "GOTRACEBACK=single"), extraEnv...)
 	var outb strings.Builder
 	cmd.Stdout = &outb
 	cmd.Stderr = &outb
@@ -471,6 +472,15 @@ func replay(id, file string, print bool) int {
 		fmt.Print(out)
 	}
 	if err != nil {
+		var rf struct {
+			ExpectCrash bool `json:"expect_crash"`
+		}
+		if readJSON(file, &rf) == nil && rf.ExpectCrash && !strings.Contains(err.Error(), "watchdog") {
+			if print {
+				fmt.Printf("replay: the process died again, as recorded\nVIOLATION property=%s replay=%s\n", id, file)
+			}
+			return 1
+		}
 		fmt.Fprintf(os.Stderr, "check: replay process failed: %v\n%s\n", err, out)
 		return 2
 	}
@@ -623,9 +633,29 @@ func runCheck(id, tier string) int {
 			}
 			args := []string{"run", "-prop", id, "-seed", strconv.FormatUint(seed, 10), "-start", strconv.Itoa(start), "-count", strconv.Itoa(cnt),
 				"-tier", strconv.Itoa(tierN), "-out", of, "-deadline", fmt.Sprintf("%.0f", secs), "-replays", replayDir, "-shrink", strconv.Itoa(shrink)}
-			out, err := runWorker(bin, args, 8<<20, time.Duration(secs*3+600)*time.Second)
+			lastCase := filepath.Join(tmpDir, fmt.Sprintf("w%d.lastcase", i))
+			out, err := runWorker(bin, args, 8<<20, time.Duration(secs*3+600)*time.Second, "MGSIM_LASTCASE="+lastCase)
 			outs[i] = out
 			if err != nil {
+				if meta.CrashIsViolation && !strings.Contains(err.Error(), "watchdog") {
+					// the worker died inside a run: attribute it to that run
+					if b, rerr := os.ReadFile(lastCase); rerr == nil {
+						var idx int
+						var rseed uint64
+						if n, _ := fmt.Sscanf(string(b), "%d %d", &idx, &rseed); n == 2 {
+							path := filepath.Join(replayDir, fmt.Sprintf("%s-crash-%d.json", id, rseed))
+							tail := out
+							if len(tail) > 1500 {
+								tail = tail[:1500]
+							}
+							rb, _ := json.MarshalIndent(map[string]any{"property": id, "class": id + "/process-crash", "message": "worker process died during this run: " + tail,
+								"seed": rseed, "batch_seed": seed, "index": idx, "tier": tierN, "seed_only": true, "expect_crash": true, "harness_version": "mgsim-1"}, "", " ")
+							os.WriteFile(path, rb, 0o644)
+							results[i] = &batchResult{Failures: []failure{{Index: idx, Seed: rseed, Class: id + "/process-crash", Msg: "worker process died during this run (e.g. out of memory under ulimit -v):\n" + tail, Replay: path}}}
+							return
+						}
+					}
+				}
 				errs[i] = err
 				return
 			}
